@@ -4,9 +4,11 @@ package keeper
 
 import (
 	"context"
+	"errors"
 	"time"
 
 	sdk "github.com/cosmos/cosmos-sdk/types"
+	sdkerrors "github.com/cosmos/cosmos-sdk/types/errors"
 
 	marketapi "github.com/regen-network/regen-ledger/api/v2/regen/ecocredit/marketplace/v1"
 	baseapi "github.com/regen-network/regen-ledger/api/v2/regen/ecocredit/v1"
@@ -96,30 +98,64 @@ func VerifHarness_Step_MarketCancelSellOrder() {
 		})
 }
 
+func buyDirectHook(req *types.MsgBuyDirect) func(s *zzinv.Step) {
+	return func(s *zzinv.Step) {
+		// C03 exception: the seller of a filled order loses exactly the purchased quantity
+		// from escrow (and nothing from tradable); everybody else loses nothing
+		s.SkipC03 = true
+		a, b := s.Sk.Acct, s.Sk.Batch
+		zz.Assume(zz.Not(zz.BytesEq(a, s.Signer)))
+		zz.Assume(zz.Not(zz.IsModuleAccount(a)))
+		da := zzinv.DeltaAccount(a, b)
+		filled := zz.QInt(0)
+		if s.Err == nil {
+			for _, o := range req.Orders {
+				var so marketapi.SellOrder
+				found := zz.OrmRow0(zzinv.TSellOrder, &so, o.SellOrderId)
+				mine := zz.And(found, zz.And(zz.BytesEq(so.Seller, a), so.BatchKey == b))
+				filled = zz.QAdd(filled, zz.QIf(mine, zz.QParse(o.Quantity), zz.QInt(0)))
+			}
+		}
+		zz.Assert(zz.QLe(zz.QInt(0), da.Tradable), "C03 BuyDirect never reduces a non-signer's tradable credits")
+		zz.Assert(zz.QEq(da.Escrowed, zz.QNeg(filled)), "C03 BuyDirect reduces a seller's escrow by exactly the quantities bought from their orders")
+		zz.Assert(zz.QLe(zz.BankBal0(a, s.Sk.Denom), zz.BankBal1(a, s.Sk.Denom)), "C03 BuyDirect never reduces a non-signer's coins")
+		// C18: whatever the accepted fee parameters, a purchase never aborts because one of
+		// the computed transfers (payment, fee, burn) truncates to a zero coin, which the
+		// bank module rejects
+		zz.Assert(!(s.Err != nil && errors.Is(s.Err, sdkerrors.ErrInvalidCoins)), "C18 BuyDirect never fails because a computed coin amount is zero (accepted fee rates, small purchases)")
+	}
+}
+
 func VerifHarness_Step_MarketBuyDirect() {
 	req := &types.MsgBuyDirect{}
-	runStep(req, func(k Keeper, ctx context.Context) error { _, err := k.BuyDirect(ctx, req); return err },
-		func(s *zzinv.Step) {
-			// C03 exception: the seller of a filled order loses exactly the purchased quantity
-			// from escrow (and nothing from tradable); everybody else loses nothing
-			s.SkipC03 = true
-			a, b := s.Sk.Acct, s.Sk.Batch
-			zz.Assume(zz.Not(zz.BytesEq(a, s.Signer)))
-			zz.Assume(zz.Not(zz.IsModuleAccount(a)))
-			da := zzinv.DeltaAccount(a, b)
-			filled := zz.QInt(0)
-			if s.Err == nil {
-				for _, o := range req.Orders {
-					var so marketapi.SellOrder
-					found := zz.OrmRow0(zzinv.TSellOrder, &so, o.SellOrderId)
-					mine := zz.And(found, zz.And(zz.BytesEq(so.Seller, a), so.BatchKey == b))
-					filled = zz.QAdd(filled, zz.QIf(mine, zz.QParse(o.Quantity), zz.QInt(0)))
-				}
+	runStep(req, func(k Keeper, ctx context.Context) error { _, err := k.BuyDirect(ctx, req); return err }, buyDirectHook(req))
+}
+
+// BuyDirect with two entries in one message (the same sell order may be named twice), in the
+// configuration without marketplace fees and with moderate prices: the part of the two-entry
+// state space that is cheap enough to explore (stated restriction; the general one-entry
+// harness above has no such restriction).
+func VerifHarness_Step_MarketBuyDirectTwo() {
+	req := &types.MsgBuyDirect{}
+	runStep(req, func(k Keeper, ctx context.Context) error {
+		zz.Assume(len(req.Orders) == 2)
+		var fp marketapi.FeeParams
+		if zz.OrmRow0("regen.ecocredit.marketplace.v1.FeeParams", &fp) {
+			zz.Assume(zz.And(fp.BuyerPercentageFee == "", fp.SellerPercentageFee == ""))
+		}
+		for _, o := range req.Orders {
+			zz.Assume(o.MaxFeeAmount == nil)
+			zz.Assume(zz.QLt(zz.QParse(o.Quantity), zz.QPow10(9)))
+			var so marketapi.SellOrder
+			if zz.OrmRow0(zzinv.TSellOrder, &so, o.SellOrderId) {
+				ask, ok := sdk.NewIntFromString(so.AskAmount)
+				zz.Assume(ok)
+				zz.Assume(zz.QLt(zz.QOf(ask), zz.QPow10(12)))
 			}
-			zz.Assert(zz.QLe(zz.QInt(0), da.Tradable), "C03 BuyDirect never reduces a non-signer's tradable credits")
-			zz.Assert(zz.QEq(da.Escrowed, zz.QNeg(filled)), "C03 BuyDirect reduces a seller's escrow by exactly the quantities bought from their orders")
-			zz.Assert(zz.QLe(zz.BankBal0(a, s.Sk.Denom), zz.BankBal1(a, s.Sk.Denom)), "C03 BuyDirect never reduces a non-signer's coins")
-		})
+		}
+		_, err := k.BuyDirect(ctx, req)
+		return err
+	}, buyDirectHook(req))
 }
 
 func VerifHarness_Step_MarketAddAllowedDenom() {
